@@ -43,10 +43,11 @@ def judge(rep, s, m):
         why = (why or "") + " reference tree not well-formed"
     if why and len(rep.violations) < 6:
         kindw = why.split(":")[0]
+        kc = S.known_class(s)
         rep.violation(H.step_case(s, model=[list(mout), mtree]),
                       "%s.%s%r from tree %r — %s" % (s.kind, s.op[0], s.op[1:], [e[:2] for e in s.pre][:10], why),
                       found_input=True,
-                      signature="C01/%s/%s/%s" % (s.kind, s.op[0], kindw))
+                      signature=("C01/known/" + kc) if kc else "C01/%s/%s/%s" % (s.kind, s.op[0], kindw))
 
 
 def run(rep, tier, seed, deep=False):
